@@ -133,6 +133,11 @@ def stepOp (q : List QTok) (input : Str) (m : M) (op : String) : Option (String 
     match r with
     | some i => pure ((← summary q i), { m with cur := .flat v' })
     | none => pure ("_", { m with cur := .flat v' })
+  | "k", .flat v => do
+    let n ← v.len q
+    let is ← flatAll q (v.stop - v.start + 1) v
+    let ss ← is.mapM (summary q)
+    pure (s!"{n}:[" ++ ",".intercalate ss ++ "]", m)
   | "l", .flat v => (v.len q).map fun k => (toString k, m)
   | "n", .toks a b =>
     if a ≥ b then some ("_", m) else (createToken q a).map fun t => (showTok t, { m with cur := .toks (a + 1) b })
